@@ -389,10 +389,15 @@ class Run(object):
                 del cb
             for bad in ((SIGS['i_i'], 42, {}), (SIGS['i_i'], (lambda x: x), {'error': 'notanint'}),
                         (SIGS['h_c'], (lambda c: 0), {'error': 10 ** 9})):
+                before_fail = self.check.shim_mmap_failed()
                 try:
                     cb = self.iffi.callback(bad[0], bad[1], **bad[2])
                 except (TypeError, OverflowError):
                     self.out.fault('creation_rejected_bad_callable_or_error_value')
+                except MemoryError:
+                    if self.check.shim_mmap_failed() == before_fail:
+                        raise Violation('C29.2', 'ffi.callback() raised MemoryError although no mmap failure was injected')
+                    self.out.fault('mmap_failed_MemoryError')
                 else:
                     self.out.unspec('bad_callback_arguments_accepted')
                     del cb
@@ -430,7 +435,14 @@ class Run(object):
             if ne is not None:
                 run.slots.append(ne)
             raise RuntimeError('injected failure after self-replacement')
-        cb = self.iffi.callback(SIGS['i_i'], fn, error=-11)
+        before_fail = self.check.shim_mmap_failed()
+        try:
+            cb = self.iffi.callback(SIGS['i_i'], fn, error=-11)
+        except MemoryError:
+            if self.check.shim_mmap_failed() > before_fail:
+                self.out.fault('mmap_failed_MemoryError')       # the injected mmap failure hit this creation
+                return
+            raise Violation('C29.2', 'ffi.callback() raised MemoryError although no mmap failure was injected')
         addr = int(self.iffi.cast('uintptr_t', cb))
         if addr in self.addrs:
             raise Violation('C29.1', 'new callback got address %#x which still belongs to a live callback' % addr)
